@@ -154,14 +154,38 @@ def breakers_for(prop: str) -> List[Tuple[str, dict]]:
     return out
 
 
+def twins_for(prop: str) -> List[Tuple[str, dict]]:
+    """repaired twins of breaking changes (selfcheck/twins/<prop>-<name>.diff): the same new code with the defect removed; the
+    check must be silent on them, which guards the generic analyses against alarming on correct additions"""
+    out = []
+    d = VERIF / "selfcheck" / "twins"
+    if d.is_dir():
+        for p in sorted(d.glob(f"{prop}-*.diff")):
+            out.append((f"twin/{p.stem}", {"diff": p.read_text()}))
+    return out
+
+
 def run(prop: str, prog: Program, rep: Report):
     jobs = [("benign", prop, name, None) for name in TRANSFORMS]
+    jobs += [("twin", prop, name, payload) for name, payload in twins_for(prop)]
     jobs += [("breaker", prop, name, payload) for name, payload in breakers_for(prop)]
     stats = {"benign": 0, "benign_silent": 0, "breakers": 0, "breakers_fired": 0, "stale": 0, "details": []}
     workers = min(16, max(1, len(jobs)))
     with ProcessPoolExecutor(max_workers=workers) as ex:
         results = list(ex.map(_job, jobs))
     for kind, name, verdict, msgs in results:
+        if kind == "twin":
+            if verdict == "STALE":
+                stats["stale"] += 1
+                stats["details"].append(f"{name}: stale ({msgs[0] if msgs else ''})")
+                continue
+            stats["benign"] += 1
+            if verdict == "PASS":
+                stats["benign_silent"] += 1
+            else:
+                rep.error(f"self-check: the repaired twin '{name}' (correct new code) makes the check report {verdict}: "
+                          f"{'; '.join(msgs[:2])} (the rule alarms on code where the property holds)")
+            continue
         if kind == "benign":
             stats["benign"] += 1
             if verdict == "PASS":
